@@ -131,3 +131,19 @@ Fixpoint indents (src : list N) (first : bool) (prev_end d : N) (ts : list token
     let d2 := if has_lf body then 0 else d1 in
     tindent t = d2 /\ indents src false (tend t) d2 r
   end.
+
+(* ---- the token that starts a (blank-free) source suffix, by the lexical rules alone ----
+   `rest` = the source from a token start on. first_token m rest ty l: l is a prefix of rest, (ty, l) is an
+   instance of a lexical rule, and l is maximal: a word/number is not followed by a character that would
+   extend it, an INT is not followed by `,` digit (that is a FLOAT), `.` is not the start of `...`, and the
+   empty literal (EOF) only at the end. Used in both directions: every scanned token is the first_token of
+   its suffix, and whatever is a first_token of that suffix is the scanned token (C13_kind_complete). *)
+Definition hd_sat (l : list N) (p : N -> bool) : bool := match l with c :: _ => p c | [] => false end.
+Definition maximal (l tail : list N) : Prop :=
+  (l = [] -> tail = []) /\
+  (forall c r, l = c :: r -> isAlpha c = true -> hd_sat tail isAlphaNumeric = false) /\
+  (forall c r, l = c :: r -> isDigit c = true -> hd_sat tail isDigit = false) /\
+  (digits l -> forall d t', tail = 44 :: d :: t' -> isDigit d = false) /\
+  (l = [46] -> forall t', tail <> 46 :: 46 :: t').
+Definition first_token (m : mode) (rest : list N) (ty : N) (l : list N) : Prop :=
+  exists tail, rest = l ++ tail /\ class_ok m (tail = []) ty l /\ maximal l tail.
